@@ -1,10 +1,24 @@
 /-
   C01 — XPath scalar evaluation follows XPath 1.0 semantics.  Headline theorems.
+  (helper lemmas live in YV/Proofs/XEval.lean)
 -/
+import YV.Proofs.XEval
 import YV.Spec.XSem
 namespace YV.C01
 open YV YV.X YV.XS
 
-theorem placeholder : True := trivial
+/-- Compiler correctness, any nesting depth: running the postfix program the grammar actions emit
+    for `e`, followed by `store`, yields exactly the bottom-up value of the tree (or the same error). -/
+theorem C01_machine_eq_tree (env : Env) (e : Expr) (hw : WellFormed e) :
+    run env (compile e ++ [.store]) = (evalM env e >>= fun v => pure (some v)) := by
+  unfold run
+  rw [exec_compile env e hw [.store] {}]
+  cases h : evalM env e with
+  | error x => simp
+  | ok v => simp [exec, step, pop]
+
+/-- non-vacuity: a nested, well-formed expression -/
+example : WellFormed (.call .substring [.lit "12345".toList, .bin .div (.num SF.one) (.num SF.zero), .neg (.env 0)]) := by
+  simp [WellFormed, WellFormedList, Fn.sig]
 
 end YV.C01
